@@ -5,6 +5,7 @@ from pyvc.dsl import FunctionSpec, Loop, forall, rng
 
 CORR = OBJ('InitialAlignment', 'EmptyInitialAlignment')
 SP = OBJ('SelectedPeak')
+SEEDSRC = z3.Function('seed_source_correlation', z3.ArraySort(z3.IntSort(), Ref), z3.IntSort(), z3.IntSort())
 
 
 def _ensures(C, res):
@@ -15,6 +16,11 @@ def _ensures(C, res):
                                                             res[k].peak.score >= res[k2].peak.score),
                                        [MP(res.raw(k).t, res.raw(k2).t)])),
           ('at_most_count', res.len <= cnt)]
+    if not C.proving:
+        # (Skolem form of 'every_seed_is_an_input_peak', proved below with the flattening / sorting witnesses)
+        src = lambda k: SEEDSRC(res.v.arrs[0], k)
+        cl.append(('every_seed_is_a_peak_of_one_of_the_given_correlations', forall(k, z3.Implies(rng(0, k, res.len), z3.And(
+            0 <= src(k), src(k) < X.len, res[k].primaryCorrelation.ref == X.raw(src(k)).t, X[src(k)].peaks.len >= 1)), [res.raw(k).t])))
     e = C._e
     fl, so = C.note('last_flatten'), C.note('last_sorted')
     if C.has('F') and fl is not None and so is not None:
@@ -24,7 +30,8 @@ def _ensures(C, res):
         cl.append(('every_seed_is_an_input_peak', forall(k, z3.Implies(rng(0, k, res.len), z3.And(
             0 <= fl['ci'](so['pi'](k)), fl['ci'](so['pi'](k)) < X.len,
             res[k].primaryCorrelation.ref == X.raw(fl['ci'](so['pi'](k))).t,
-            res[k].peak.ref == X[fl['ci'](so['pi'](k))].peaks.raw(fl['pi'](so['pi'](k))).t)), [res.raw(k).t])))
+            res[k].peak.ref == X[fl['ci'](so['pi'](k))].peaks.raw(fl['pi'](so['pi'](k))).t,
+            X[fl['ci'](so['pi'](k))].peaks.len >= 1)), [res.raw(k).t])))
         cl.append(('count_is_min_of_count_and_available', res.len == z3.If(cnt < fl['m'], cnt, fl['m'])))
         cl.append(('no_dropped_peak_scores_higher', forall([a, b, k], z3.Implies(
             z3.And(rng(0, a, X.len), rng(0, b, X[a].peaks.len), rng(0, k, res.len)),
